@@ -79,7 +79,7 @@ def cmd_run(ids, all_checks):
             for p in props:
                 c = sh("cd %s && VERIF_NO_WITNESSES=1 VERIF_REPO=%s ./check %s" % (HERE, wt, p))
                 mech = [l.strip()[11:] for l in c.stdout.splitlines() if l.strip().startswith("mechanism:")]
-                det[p] = {"status": "caught" if c.returncode == 1 else ("inconclusive" if c.returncode == 2 else "missed"), "mechanisms": mech[:3]}
+                det[p] = {"status": "caught" if (c.returncode == 1 and "VIOLATION property=%s" % p in c.stdout) else ("inconclusive" if c.returncode == 2 else ("check-crashed" if c.returncode else "missed")), "mechanisms": mech[:3]}
             meta["detection"] = det
             meta["detected_by_owning_check"] = det[meta["property"]]["status"] == "caught"
             json.dump(meta, open(os.path.join(dst, "meta.json"), "w"), indent=1)
